@@ -436,13 +436,18 @@ def large_shard(task):
   sysm.reset()
   path = [('CreateStudy', 's', 'REC')] + [('CreateTrial', 's', 'succeeded', round(0.001 * i, 6)) for i in range(1, 106)]
   path += [('SuggestTrials', 's', 'a', 2), ('CompleteTrial', 's', 106, 'final'), ('SuggestTrials', 's', 'b', 1), ('CompleteTrial', 's', 107, 'infeasible'), ('SuggestTrials', 's', 'a', 1)]
+  if task.get('history') == 'sparse':
+    # ids reach the policy's memory in an order that is far from ascending, with gaps (parallel workers finishing out of order)
+    path = [('CreateStudy', 's', 'REC'), ('SuggestTrials', 's', 'a', 3), ('SuggestTrials', 's', 'b', 3), ('SuggestTrials', 's', 'c', 3), ('SuggestTrials', 's', 'd', 2)]
+    for i, tid in enumerate((9, 2, 10, 3, 1, 11, 5)):
+      path += [('CompleteTrial', 's', tid, 'final' if i % 3 else 'infeasible'), ('SuggestTrials', 's', 'e%d' % i, 1)]   # a new worker each time: the algorithm is asked
   vios = []
   done = []
   for a in path:
     for v in sysm.apply(a):
       v = dict(v)
       v['sig'] = v['sig'] + '|large-study'
-      v['case'] = {'large': True, 'backend': task['backend'], 'mode': task['mode']}
+      v['case'] = {'large': True, 'backend': task['backend'], 'mode': task['mode'], 'history': task.get('history')}
       vios.append(v)
     done.append(a)
     if vios:
@@ -489,7 +494,7 @@ def run(ctx):
     c['cfg'] = cfg
     cov['runs'].append(c)
   big = 0
-  for r in ctx.pmap('large_shard', [{'backend': 'ram', 'mode': 'rebuilt'}, {'backend': 'ram', 'mode': 'stateless'}] + ([] if ctx.quick else [{'backend': 'sqlmem', 'mode': 'rebuilt'}])):
+  for r in ctx.pmap('large_shard', [{'backend': 'ram', 'mode': 'rebuilt'}, {'backend': 'ram', 'mode': 'stateless'}, {'backend': 'ram', 'mode': 'rebuilt', 'history': 'sparse'}] + ([] if ctx.quick else [{'backend': 'sqlmem', 'mode': 'rebuilt'}])):
     big += r['n']
     ctx.extend(r['violations'])
   cov['transitions'] += big
@@ -500,7 +505,7 @@ def run(ctx):
 
 def replay(case, ctx):
   if case.get('large'):
-    return large_shard({'backend': case['backend'], 'mode': case['mode']})['violations']
+    return large_shard({'backend': case['backend'], 'mode': case['mode'], 'history': case.get('history')})['violations']
   sysm = system(case['cfg'])
   sysm.reset()
   for a in case['path']:
